@@ -186,4 +186,86 @@ func (*parser).parseString [C19, C03]
   requires p != nil && p.module != nil && 1 <= p.cur && p.cur <= len(p.tokens)
   loop 0 invariant 0 <= i && 0 <= w
   loop 0 decreases len(str) - i
+
+// ================= C03: the token cursor never leaves the token slice =================
+// established by newParser: at least one token, the last one is EOF, the cursor is inside
+spec wfCur(p *parser) bool :=
+  p != nil && len(p.tokens) >= 1 && p.tokens[len(p.tokens) - 1].Type == token.EOF && 0 <= p.cur && p.cur <= len(p.tokens)
+spec atEndS(p *parser) bool := p.cur >= len(p.tokens) || p.tokens[p.cur].Type == token.EOF
+
+func (*parser).peek [C03]
+  safe
+  requires wfCur(p)
+  modifies nothing
+  ensures result != nil
+  ensures p.cur < len(p.tokens) ==> result.Type == p.tokens[p.cur].Type
+  ensures p.cur >= len(p.tokens) ==> result.Type == token.EOF
+
+func (*parser).peekN [C03]
+  safe
+  requires wfCur(p)
+  modifies nothing
+  ensures result != nil
+  ensures 0 <= p.cur + n && p.cur + n < len(p.tokens) ==> result.Type == p.tokens[p.cur + n].Type
+
+func (*parser).previous [C03]
+  safe
+  requires wfCur(p)
+  modifies nothing
+  ensures result != nil
+  ensures p.cur >= 1 ==> result.Type == p.tokens[p.cur - 1].Type
+
+func (*parser).atEnd [C03]
+  safe
+  requires wfCur(p)
+  modifies nothing
+  ensures result == atEndS(p)
+
+func (*parser).check [C03]
+  safe
+  requires wfCur(p)
+  modifies nothing
+  ensures result == (!atEndS(p) && p.tokens[p.cur].Type == t)
+
+// advance moves by exactly one token unless the cursor is at EOF, where it stays
+func (*parser).advance [C03]
+  safe
+  requires wfCur(p)
+  modifies parser.parser.cur
+  ensures wfCur(p) && result != nil
+  ensures !old(atEndS(p)) ==> p.cur == old(p.cur) + 1
+  ensures old(atEndS(p)) ==> p.cur == old(p.cur)
+
+func (*parser).decrease [C03]
+  safe
+  requires wfCur(p)
+  modifies parser.parser.cur
+  ensures wfCur(p) && p.cur == (old(p.cur) > 0 ? old(p.cur) - 1 : 0)
+
+func (*parser).matchAny [C03]
+  safe
+  requires wfCur(p)
+  modifies parser.parser.cur
+  ensures wfCur(p) && p.cur >= old(p.cur) && p.cur <= old(p.cur) + 1
+  ensures result ==> p.cur == old(p.cur) + 1
+  ensures !result ==> p.cur == old(p.cur)
+  loop 0 invariant wfCur(p) && p.cur == old(p.cur)
+
+func (*parser).matchSeq [C03]
+  safe
+  requires wfCur(p)
+  modifies parser.parser.cur
+  ensures wfCur(p) && p.cur >= old(p.cur)
+  ensures !result ==> p.cur == old(p.cur)
+  loop 0 invariant wfCur(p) && p.cur == old(p.cur)
+  loop 1 invariant wfCur(p) && p.cur >= old(p.cur)
+
+// error recovery skips tokens until a statement boundary and always terminates (it stops at EOF at the latest)
+func (*parser).synchronize [C03]
+  safe
+  requires wfCur(p)
+  modifies parser.parser.cur, parser.parser.panicMode
+  ensures wfCur(p) && p.cur >= old(p.cur) && !p.panicMode
+  loop 0 invariant wfCur(p) && p.cur >= old(p.cur)
+  loop 0 decreases len(p.tokens) - p.cur
 @*/
